@@ -64,7 +64,7 @@ ASSUMPTIONS = [
     "lru_cache contents are read through the CPython GC traversal order of the wrapper; validated by a self-test and "
     "against cache_info() on every read",
     "the ACL scratch field attrs['match'] is excluded from every hash, as the property allows",
-    "jobs build their old/new trees afresh from JSON; only compiled objects are shared between jobs",
+    "jobs build their old/new trees afresh from JSON (OrderedDicts; five jobs are repeated with plain dicts); only compiled objects are shared between jobs",
     "closure pruning at depth 3 relies on the fingerprint; its premise is checked on all explored nodes with equal fingerprints",
 ]
 BUDGET = {"quick": 150, "thorough": 1500}
@@ -166,6 +166,10 @@ SYNTH_JOBS = [
      "old": [["ip access-list B", [["permit 9", []]]], ["ntp server 3.3.3.3", []], ["no thing 1", []], ["stray row", []]],
      "new": [["route-map N", [["set z", []]]], ["stray row 2", []]]},
 ]
+# the same jobs once more with their trees built from plain dicts instead of OrderedDicts (both are accepted everywhere;
+# a protective copy that recognises only one of the two types lets the caller's blocks through by reference)
+PLAIN_SYNTH = ["synth/T1/a", "synth/T2/a", "synth/T3/a"]
+PLAIN_PATCH = ["patch/nexus/nexus_lag_member_add", "patch/cisco/cisco_bgp_address_family"]
 # lru caches named by the property; each must be a component of the fingerprint (module, attribute)
 REQUIRED_LRU = [
     ("annet.annlib.rbparser.syntax", "compile_row_regexp"),
@@ -320,6 +324,11 @@ def build_jobs():
         if sj.get("filter_acl"):
             j["filter_acl"] = SYNTH_ACL[sj["filter_acl"]]
         jobs.append(j)
+        if sj["id"] in PLAIN_SYNTH:
+            jobs.append(dict(j, id=j["id"] + "/plain", jk=j["jk"] + "/plain-dict", plain=True))
+    for pid_ in PLAIN_PATCH:
+        j = next(x for x in jobs if x["id"] == pid_)
+        jobs.append(dict(j, id=j["id"] + "/plain", jk=j["jk"] + "/plain-dict", plain=True))
     return jobs
 
 
@@ -405,6 +414,11 @@ def _warm(job, hw_model):
     return out
 
 
+def _to_plain(forest):
+    """the tree as nested plain dicts (what json.loads or a generator written with {} hands to annet)"""
+    return {row: _to_plain(ch) for row, ch in forest}
+
+
 def run_job(job):
     """-> report (JSON-able).  Only annet entry points are called; the harness adds snapshots and the fingerprint."""
     from annet import api, deploy, patching, rulebook
@@ -431,8 +445,9 @@ def run_job(job):
                   "deploying": compile_deploying_text("", vendor)}
         else:
             rb = rulebook.get_rulebook(hw)
-        old = env.to_odict(job["old"]) if "old" in job else None
-        new = env.to_odict(job["new"])
+        mk = _to_plain if job.get("plain") else env.to_odict
+        old = mk(job["old"]) if "old" in job else None
+        new = mk(job["new"])
         acl = compile_acl_text(job["acl"], vendor) if job.get("acl") else None
         facl = compile_acl_text(job["filter_acl"], vendor) if job.get("filter_acl") else None
         rt = None
